@@ -57,6 +57,23 @@ def parseFiles : List Str → List SrcFile → List SrcFile
         else parseFiles rest ({ f with top := f.top ++ [{ list := a, ent := ent }] } :: fs)
   | _, acc => acc.reverse
 
+/-- `n` records `dir has(0|1)` -/
+def parseDirs : Nat → List Str → List (Str × Bool)
+  | 0, _ => []
+  | n + 1, d :: h :: rest => (d, h == ['1']) :: parseDirs n rest
+  | _ + 1, _ => []
+
+/-- levels of an inheritance chain, root first: `n` then `n` records `name priv(0|1)` -/
+def parseLevel : Nat → List Str → List Binding × List Str
+  | 0, rest => ([], rest)
+  | n + 1, a :: b :: rest => let (l, r) := parseLevel n rest; (⟨a, b == ['1']⟩ :: l, r)
+  | _ + 1, rest => ([], rest)
+
+def parseLevels : Nat → List Str → List (List Binding)
+  | 0, _ => []
+  | k + 1, n :: rest => let (l, r) := parseLevel (natOf n) rest; l :: parseLevels k r
+  | _ + 1, [] => []
+
 def variantOf (s : Str) : Variant :=
   if s == "repaired".toList then .repaired else if s == "asIs".toList then .asIs else variantOfTree
 
@@ -91,7 +108,29 @@ def dispatchC12 : List Str → Option (List Str)
     else if cmd == "c12.variant".toList then
       some ["ok".toList, (if Gen.C12.fileIterSorted then "repaired".toList else "asIs".toList),
             (if Gen.C12.usesIterSorted then "sorted".toList else "unsorted".toList),
-            (if Gen.C12.countKeyLower then "lower".toList else "asWritten".toList)]
+            (if Gen.C12.countKeyLower then "lower".toList else "asWritten".toList),
+            (if Gen.C12.incDirsOrdered then "ordered".toList else "hash".toList),
+            (if Gen.C12.inheritedIterOrdered then "ordered".toList else "hash".toList)]
+    else if cmd == "c12.include".toList then
+      -- c12.include <own dir> <own has 0|1> <n> {dir has}: the directory the include file is taken from
+      -- (the configured order stands in for the unknown iteration order when the tree goes through a set)
+      match args with
+      | own :: oh :: n :: rest =>
+        let dirs := parseDirs (natOf n) rest
+        let has : Str → Bool := fun d => if d == own then oh == ['1'] else (dirs.find? (fun p => p.1 == d)).any (·.2)
+        match resolveIncludeTree id has own (dirs.map (·.1)) with
+        | some d => some ["ok".toList, "some".toList, d]
+        | none => some ["ok".toList, "none".toList]
+      | _ => some ["bad-request".toList]
+    else if cmd == "c12.inherit".toList then
+      -- c12.inherit <b|c> <levels> {n {name priv}}: bindings / components a type shows, chain root first
+      match args with
+      | kind :: k :: rest =>
+        let levels := parseLevels (natOf k) rest
+        let r := if kind == ['b'] then chainBindings Gen.C12.inheritedIterOrdered id levels
+                 else chainComps Gen.C12.inheritedIterOrdered id levels
+        some ("ok".toList :: r.map (·.name))
+      | _ => some ["bad-request".toList]
     else if cmd == "c12.writeout".toList then
       -- c12.writeout <out> <nInit> init... then groups of writes separated by a field "|" : path content ...
       match args with
